@@ -39,7 +39,10 @@ m = {
     }],
     "checks": checks,
     "not_applicable": [{"property_id": p, "reason": r} for p, r in sorted(NOT_CLAIMED.items()) if p not in CHECKS],
-    "notes": "See DESIGN.md. Genuine defects found are repaired by 'fix:' commits in /repo and recorded in known_findings.json.",
+    "notes": "See DESIGN.md. Genuine defects found (D1-D13) are repaired by 'fix:' commits in /repo and recorded in known_findings.json; no open "
+             "finding. Quick commands take 0.5-4 min each on 16 cores. Thorough commands walk a much larger plan in plan order within a "
+             "wall-clock budget (VERIF_THOROUGH_BUDGET_S, default 420 s; 0 = whole plan, up to ~70 min per property); units not started are "
+             "reported in the evidence as a cap, never as a pass. VERIF_SEED selects the catalogue shards.",
 }
 with open(os.path.join(ROOT, "MANIFEST.json"), "w") as f:
     json.dump(m, f, indent=1)
